@@ -440,6 +440,26 @@ def main():
         Db('ccm_checks_flat_length', re.search(r'len\(vector\)\s*!=\s*int\(schema\.VectorFlat\.VectorSize\)\s*\{\s*return', b) is not None)
         Db('ccm_checks_vamana_length', re.search(r'len\(vector\)\s*!=\s*int\(schema\.VectorVamana\.VectorSize\)\s*\{\s*return', b) is not None)
         Db('ccm_nested_needs_map', re.search(r'expected nested map for property', b) is not None)
+        # HOW CheckCompatibleMap resolves an index property in the point: split the name on "." and walk
+        # maps from the root, nothing else.  Every map access in the body must be m[part] (the walk) or
+        # m[k] (writing the converted value back); a lookup under any other key -- e.g. the whole property
+        # name as a literal root key -- resolves differently from the dispatcher (msgpack Decoder.Query).
+        accesses = set(re.findall(r'\b(\w+)\[(\w+)\]', b)) - {('', '')}
+        accesses = {(a, k) for a, k in accesses if a in ('m', 'pointMap', 'nested', 's') or k in ('property', 'part', 'k')}
+        walk = (re.search(r'for\s+property\s*,\s*schema\s*:=\s*range\s+s\s*\{', b) is not None
+                and re.search(r'\n\s*parts\s*:=\s*strings\.Split\(property,\s*"\."\)', b) is not None
+                and re.search(r'\n\s*m\s*:=\s*pointMap\b', b) is not None
+                and re.search(r'for\s+i\s*,\s*part\s*:=\s*range\s+parts\s*\{\s*partValue\s*,\s*ok\s*:=\s*m\[part\]\s*if\s+!ok\s*\{\s*skip\s*=\s*true\s*break', b) is not None
+                and re.search(r'if\s+i\s*==\s*len\(parts\)\s*-\s*1\s*\{\s*v\s*=\s*partValue\s*k\s*=\s*part', b) is not None
+                and len(re.findall(r'\bv\s*=[^=]', b)) == 1 and len(re.findall(r'\bparts\s*:?=[^=]', b)) == 1)
+        Db('ccm_resolves_by_nested_walk', walk and accesses <= {('m', 'part'), ('m', 'k')})
+        # ... and the write path of the shard resolves it with msgpack's Decoder.Query on the stored bytes
+        ut = rd('shard/index/utils.go')
+        gp = func_body(ut, 'getPropertyFromBytes')
+        go_ = func_body(ut, 'getOperation')
+        Db('dispatch_resolves_by_query', re.search(r'queryResult\s*,\s*err\s*:=\s*dec\.Query\(property\)', gp) is not None
+           and re.search(r'return\s+queryResult\[0\]', gp) is not None
+           and re.search(r'currentProp\s*,\s*err\s*=\s*getPropertyFromBytes\(dec,\s*currentData,\s*propertyName\)', go_) is not None)
 
         # ---- handlers: validation happens before the first cluster call that acts on the request
         def before(src, recv, fn, first, then, what):
